@@ -22,3 +22,21 @@ CLAIMED["C04"] = (
     "Coq proof: decision-table case analysis + Flocq proof that round(R/3) in binary64 is (2R+3)/6 for all 1<=R<2^50 + per-run vm_compute correspondence",
     "Theorems C04_rule (decision table for any boundary), C04_first/C04_first_forced (first note; documented rejection), C04_threshold (float: round(resolution/3) is resolution/3 to the nearest tick for every resolution below 2^50), C04_closed, C04_track (every event of every built track carries the decision of (predecessor, itself)), C04_chord.",
     MODEL_NOTE + " The eighth-triplet divisor 3 is regenerated from the source and checked in Tie/C04.v.")
+REGEX_NOTE = (" The shipped regular expressions are regenerated from /repo on every run (re._parser -> Regex.re) and compared syntactically with the reference expressions the theorems are about "
+              "(cfg_ok items in Tie/); a harmless rewrite of a pattern therefore breaks the obligation and is reported as no-failing-input-found unless the generated lines expose a difference.")
+CLAIMED["C07"] = (
+    "Coq proof: verified derivative matcher + language inversion of the reference regexes (all strings) and extractor correctness + per-run syntactic tie of the regenerated regexes + vm_compute correspondence",
+    "Theorems C07_{note,sp,tev}_only (the recognisers accept EXACTLY the canonical shapes, for all strings), C07_{note,sp,tev}_accept (canonical lines of any digit count and padding decode to exactly the written integers / the verbatim word), C07_reject, C07_disjoint (no string is claimed by two kinds), C07_decimal.",
+    MODEL_NOTE + REGEX_NOTE)
+CLAIMED["C08"] = (
+    "Coq proof: language inversion of the B/TS/A reference regexes + Flocq proof that int(raw)/1000 is the double nearest n/1000 and passes round(x,3)==x for all n<2^52 + per-run tie + vm_compute correspondence",
+    "Theorems C08_{bpm,ts,anchor}_only/accept (exact languages and decoded integers for all strings), C08_disjoint, C08_bpm_float/C08_bpm_value/C08_bpm_first (every numeral 1<=n<2^52 is accepted and yields RN(n/1000)), C08_ts_value (u/4, u/2^l), C08_anchor_value (exact microseconds), C08_refuted_pinned (the pinned tree's defect, repaired by fix 028903f).",
+    MODEL_NOTE + REGEX_NOTE)
+CLAIMED["C09"] = (
+    "Coq proof: language inversion of the lyric/section/text reference regexes, lazy-group (shortest prefix) extractor correctness, first-match-wins dispatch + per-run tie (incl. kind order) + vm_compute correspondence",
+    "Theorems C09_lyric/C09_section (remainder verbatim incl. inner quotes, blanks, non-ASCII), C09_text (any other quote-free text, whole text), C09_*_only (exact languages), C09_lyric_section_disjoint, C09_partition (each line lands in at most one list, lists are file-order subsequences).",
+    MODEL_NOTE + REGEX_NOTE)
+CLAIMED["C14"] = (
+    "Coq proof by induction over lines (conservation, locality) and permutation argument over pairwise-disjoint recognisers + per-run tie + vm_compute correspondence",
+    "Theorems C14_conservation/C14_count (every line yields exactly one datum of one kind or one warning), C14_local/C14_append/C14_data_unchanged (an unparsable line inserted anywhere adds exactly one warning and changes nothing else), C14_order_indep (pairwise disjoint kinds => outcome independent of the order tried); disjointness for all strings is C07_disjoint / C08_disjoint.",
+    MODEL_NOTE + REGEX_NOTE)
